@@ -171,7 +171,7 @@ func unplaceableExec(c *Ctx, op string) {
 	long := strings.Repeat("d", 300)
 	deep := strings.TrimSuffix(strings.Repeat(strings.Repeat("p", 200)+"/", 25), "/")
 	shapes := [][]clashEnt{
-		{{long + "/f", 'f', ""}},                                // the parent is only implied
+		{{long + "/f", 'f', ""}}, // the parent is only implied
 		{{"./", 'd', ""}, {long + "/", 'd', ""}, {long + "/f", 'f', ""}}, // … or listed
 		{{"./", 'd', ""}, {"ok/", 'd', ""}, {"ok/" + long, 'f', ""}},
 		{{"./", 'd', ""}, {"l", 'L', strings.Repeat("t", 5000)}},
